@@ -285,7 +285,7 @@ def slice_rule(chk, fx):
                         ch = Canon(h)
                     n_w += 1
                     txt = ch.c(n)
-                    m = re.fullmatch(r"\((\$\d+)\.current_end_it = \(\1\.current_it \+ \?(\w+)\.len\)\)", txt)
+                    m = _is_it_plus_len(h, n)
                     if m:
                         chk.ok("SLICE", A.site(h, n), "current_end_it = current_it + <lexer result>.len")
                     else:
@@ -306,6 +306,35 @@ def slice_rule(chk, fx):
         else:
             chk.violation("SLICE", A.site(h), "SLICE:term-value", "term value is built as %s" % rets)
             break
+
+
+def _is_it_plus_len(h, n):
+    """n is `<ps>.current_end_it = <ps>.current_it + <recognized_term object>.len` (the object may be a local or the
+    value of a helper call: only its type and the field matter)."""
+    k = n.get("k")
+    if k == "BinaryOperator" and n.get("op") == "=":
+        lhs, rhs = n["c"]
+    elif k == "CXXOperatorCallExpr" and n.get("op") == "=" and len(n.get("c") or []) == 3:
+        lhs, rhs = n["c"][1], n["c"][2]
+    else:
+        return False
+    r = strip(rhs, casts=True)
+    if r is None:
+        return False
+    if r.get("k") == "BinaryOperator" and r.get("op") == "+":
+        a, b = r["c"]
+    elif r.get("k") == "CXXOperatorCallExpr" and r.get("op") == "+" and len(r.get("c") or []) == 3:
+        a, b = r["c"][1], r["c"][2]
+    else:
+        return False
+    pa = A.access_path(a)
+    pl = A.access_path(lhs)
+    if not (pa and pa[-1][0] == "field" and pa[-1][1] == PS + "current_it"):
+        return False
+    if A.path_names(pa[:-1]) != A.path_names(pl[:-1]):
+        return False
+    sb = strip(b, casts=True)
+    return sb is not None and sb.get("k") == "MemberExpr" and sb["m"]["q"] == "ctpg::recognized_term::len"
 
 
 def tag(chk, fx):
